@@ -55,7 +55,7 @@ class Check(PropertyCheck):
     case_type = "(N * option (Z * N) * list N)"
     shard = 300
     rule = ("frames derived from valid responses and callbacks of the active version by truncation at every length, single-byte "
-            "flips, frame-id and sequence-number substitution, frame ids defined only by other protocol versions (with their payloads), plus uniformly random byte strings and the empty frame; each with no "
+            "flips, frame-id and sequence-number substitution, late frames for a command that has already timed out or been cancelled, frame ids defined only by other protocol versions (with their payloads), plus uniformly random byte strings and the empty frame; each with no "
             "pending command and with a pending command (same command, another command, same or other sequence number); after each "
             "frame the pending command is answered properly and a fresh command is run to completion; non-trivial = not the "
             "unmodified valid frame; distinct by (version, pending, bytes)")
@@ -123,6 +123,18 @@ class Check(PropertyCheck):
                 hdr = bytes([0, 0x80, oid]) if v == 4 else bytes([0, 0x80, 0xFF, 0x00, oid]) if v < 8 else bytes([0, 0x80, 0x01, oid & 0xFF, oid >> 8])
                 for pname in (None, "getEui64"):
                     cases.append({"v": v, "pending": pname, "data": (hdr + body).hex(), "kind": "foreign-id"})
+            # late frames: the command they answer has already timed out / been cancelled (its entry is still registered
+            # until the sequence number comes round again): the proper response, one with trailing bytes, invalidCommand,
+            # another command's response -- none may raise or disturb what follows
+            for pname in ("getEui64", "version"):
+                if pname not in cls.COMMANDS:
+                    continue
+                good = valid_frame(inst, pname, 0, rng, "rand")
+                inv = valid_frame(inst, "invalidCommand", 0, rng, "lo")
+                other = valid_frame(inst, "getNodeId", 0, rng, "lo")
+                for stale in ("timeout", "cancelled"):
+                    for fr in (good, good + b"\x00\x01", inv, other, good[:-1]):
+                        cases.append({"v": v, "pending": pname, "stale": stale, "data": fr.hex(), "kind": "late"})
             # EmberKeyStruct's deserialisation quirk: a remainder of exactly 24 bytes is padded (IPad in the model)
             for name in ("getKeyTableEntry", "getKey"):
                 if name in cls.COMMANDS:
@@ -168,6 +180,11 @@ class Check(PropertyCheck):
         if case["pending"]:
             task = b.loop.create_task(caller("p", case["pending"]))
             b.loop.settle()          # registered under seq 0, gateway stub send_data returns at once
+            if case.get("stale") == "timeout":
+                b.loop.tick()        # the command timeout fires: the call has ended, its entry is still registered
+            elif case.get("stale") == "cancelled":
+                task.cancel()
+                b.loop.settle()
         try:
             ez.frame_received(bytes.fromhex(case["data"]))
         except BaseException as e:  # noqa
@@ -201,6 +218,8 @@ class Check(PropertyCheck):
 
     def model_input(self, case):
         import bellows.ezsp as E
+        if case.get("stale"):
+            return None          # judged by the predicate: nothing raises, nothing is dispatched wrongly, later commands work
         cls = E.EZSP._BY_VERSION[case["v"]]
         if case["pending"]:
             inst = cls.__new__(cls)
@@ -236,6 +255,12 @@ class Check(PropertyCheck):
         if a["n"] is None or a["n"][0] != "ret":
             return f"a command issued after the frame did not complete normally: {a['n']}"
         f = obs["first"]
+        if case.get("stale"):
+            if f["p"] is not None and f["p"][0] == "ret":
+                return "a command that had timed out / been cancelled returned a value"
+            if f["cbs"]:
+                return f"a late frame for a command that had ended was dispatched to the callbacks: {f['cbs'][:1]}"
+            return None
         if f["p"] is not None and f["p"][0] == "ret":
             # completion requires the pending call's own sequence number (0) and its own frame id
             import bellows.ezsp as E
